@@ -240,21 +240,46 @@ func runC03(c c03Case, protos []vt.NamedProto) []string {
 	var fails []string
 	failf := func(format string, a ...interface{}) { fails = append(fails, fmt.Sprintf(format, a...)) }
 
-	priorFrames := 0
 	if c.PriorDeadline != "none" {
 		// what the session sent earlier - and with which deadline - has no bearing on the replies it owes now
 		ctx, cancel := context.WithTimeout(context.Background(), 2*time.Millisecond)
+		ownFrame := func() (vt.RawFrame, bool) {
+			for _, fr := range raw.Frames() {
+				if fr.Method == "/client/note" || fr.Method == "/client/do" {
+					return fr, true
+				}
+			}
+			return vt.RawFrame{}, false
+		}
 		if c.PriorDeadline == "push" {
 			sess.Push("/client/note", &LibArg{Rid: "prior"}, erpc.WithContext(ctx))
 		} else {
-			sess.AsyncCall("/client/do", &LibArg{Rid: "prior"}, new(LibRes), make(chan erpc.CallCmd, 1), erpc.WithContext(ctx))
-		}
-		// (if the deadline passed before the message could be written there is no frame: fine)
-		vt.WaitUntilFor(200*time.Millisecond, func() bool { return len(raw.Frames()) >= 1 })
-		priorFrames = len(raw.Frames())
-		if c.PriorDeadline == "call" && priorFrames > 0 {
-			// answer it, so that nothing of it is left pending
-			raw.Send(vt.Msg{Seq: raw.Frames()[0].Seq, Mtype: erpc.TypeReply, Codec: 'j', Body: []byte(`{"Rid":"prior"}`)})
+			prior := sess.AsyncCall("/client/do", &LibArg{Rid: "prior"}, new(LibRes), make(chan erpc.CallCmd, 1), erpc.WithContext(ctx))
+			written := true
+			select {
+			case <-prior.Done():
+				written = false // the deadline passed before the message could be written: no frame
+			default:
+			}
+			if written {
+				// answer it, so that nothing of it is left pending when the session closes
+				if vt.WaitUntilFor(vt.LivenessBound, func() bool {
+					_, ok := ownFrame()
+					if ok {
+						return true
+					}
+					select {
+					case <-prior.Done():
+						return true
+					default:
+						return false
+					}
+				}) {
+					if fr, ok := ownFrame(); ok {
+						raw.Send(vt.Msg{Seq: fr.Seq, Mtype: erpc.TypeReply, Codec: 'j', Body: []byte(`{"Rid":"prior"}`)})
+					}
+				}
+			}
 		}
 		<-ctx.Done()
 		cancel()
@@ -333,9 +358,15 @@ func runC03(c c03Case, protos []vt.NamedProto) []string {
 		failf("%s", vt.Hang("disconnect (after a frame of unsupported type / unreadable frame, or after Close)"))
 	}
 	frames := raw.Frames()
-	if priorFrames <= len(frames) {
-		frames = frames[priorFrames:] // the session's own earlier message(s)
+	// the session's own earlier message (whenever it shows up in the capture) is not a response
+	own := frames[:0:0]
+	for _, fr := range frames {
+		if fr.Method == "/client/note" || fr.Method == "/client/do" {
+			continue
+		}
+		own = append(own, fr)
 	}
+	frames = own
 
 	// count replies per seq; nothing but REPLY frames may ever be written by the server here
 	replies := map[int32][]vt.RawFrame{}
